@@ -39,8 +39,12 @@ def step (op : String) (args : List String) : Option String :=
   | "adm", [pod, anno, reqs, pns, nsE, prev, crd, inj, trunk, cluster] => do
     let p ← match pod.splitOn "," with
       | [hn, c, ig, a, b, d, fx, ds, ue] => do
-        pure ({ hostNetwork := (← bool? hn), containers := (← c.toNat?), ignored := (← bool? ig), hasNetworks := (← bool? a),
+        pure ({ hostNetwork := (← bool? hn), containers := (← ((c.splitOn "r").head?.bind String.toNat?)), ignored := (← bool? ig), hasNetworks := (← bool? a),
                 hasRequest := (← bool? b), hasPN := (← bool? d), fixedName := (← bool? fx), daemonSet := (← bool? ds), useENI := (← bool? ue) } : Pod)
+      | _ => none
+    let pre : Option Nat ← match ((pod.splitOn ",").getD 1 "").splitOn "r" with
+      | [_] => some none
+      | [_, q] => (q.toNat?).map some
       | _ => none
     let annoNets : Option (List Net) ← if anno = "-" then some (some []) else if anno = "bad" then some none else ((anno.splitOn "+").mapM net?).map some
     let rs : Option (List Req) ← if reqs = "-" then some (some []) else if reqs = "bad" then some none else ((reqs.splitOn "+").mapM req?).map some
@@ -51,16 +55,18 @@ def step (op : String) (args : List String) : Option String :=
       | _ => none
     let inp : Input := { pod := p, annoNets := annoNets, reqs := rs, pns := pl, nsExists := (← bool? nsE),
                          prevZone := if prev = "-" then none else some prev, ipamCRD := (← bool? crd), inject := (← bool? inj),
-                         enableTrunk := (← bool? trunk), cluster := cl }
+                         enableTrunk := (← bool? trunk), cluster := cl, pre := pre }
     pure (match admitPod inp with
       | .allowed => "allowed"
       | .denied w => "denied:" ++ w
       | .errored => "errored"
       | .patched nets pa res zt =>
         -- a result that equals what the pod already carries is an empty patch: the response is a plain "allowed"
-        if inp.annoNets == some nets && p.useENI && pa.isNone && res.isNone && zt.isEmpty then "allowed" else
+        let same := match res, pre with | none, _ => true | some (_, k), some q => k == q | some _, none => false
+        if inp.annoNets == some nets && p.useENI && pa.isNone && same && zt.isEmpty then "allowed" else
         "patched nets=" ++ "+".intercalate (nets.map netStr) ++ " pn=" ++ pa.getD "-" ++
-        " res=" ++ (match res with | some (n, k) => s!"{n}:{k}" | none => "-") ++
+        " res=" ++ (match (finalResources pre res).mergeSort (fun a b => decide (a.1 ≤ b.1)) with
+                    | [] => "-" | l => ",".intercalate (l.map fun e => s!"{e.1}:{e.2}")) ++
         " zones=" ++ (if zt.isEmpty then "-" else "|".intercalate (zt.map fun z => lstStr (sortDedup z))))
   | _, _ => none
 
